@@ -272,8 +272,10 @@ package build
 // hash"; that different attribute values also give different STREAMS is not provable here (writes are
 // concatenated without separators, so ["ab","c"] and ["a","bc"] collide: recorded in DESIGN.md, not claimed).
 //@ func hashBool
+//@   property C07 C08
 //@   modifies nothing
 //@ func hashOptionalBool
+//@   property C07 C08
 //@   modifies nothing
 //@ func hashMap
 //@   requires writer != nil
